@@ -8,3 +8,105 @@ Theorem C17_failed_sticky : forall w b k, w_fail w = Some k -> (k <= w_n w)%nat 
   snd (wr_write w b) = false /\ w_failed (fst (wr_write w b)) = true.
 Proof. exact wr_write_failed_sticky. Qed.
 Print Assumptions C17_failed_sticky.
+
+(* ---- the interpreter level: every tree, every context state, every budget ---- *)
+From DT Require Import Proofs.FaultProofs.
+
+(* whenever the writer has failed during the evaluation of a node, the node returns an error ... *)
+Theorem C17_fault_reported :
+  forall flits lookup budget inc n c w c' w' e,
+    (forall t c0 r, inc t c0 = Some r -> True) ->
+    w_failed w = false ->
+    write_node flits lookup budget inc n c w = Out c' w' e ->
+    w_failed w' = true -> e <> None.
+Proof. exact fault_node_reported. Qed.
+Print Assumptions C17_fault_reported.
+
+(* ... and that error is the writer error, never a control signal (break, continue, exit) that an
+   enclosing construct would swallow; no hypothesis on the include renderer is needed *)
+Theorem C17_fault_is_writer_error :
+  forall flits lookup budget inc n c w c' w' e,
+    w_failed w = false ->
+    write_node flits lookup budget inc n c w = Out c' w' e ->
+    w_failed w' = true -> e = Some EWriter.
+Proof. exact fault_node. Qed.
+Print Assumptions C17_fault_is_writer_error.
+
+Theorem C17_nodes_fault_is_writer_error :
+  forall flits lookup budget inc l c w c' w' e,
+    w_failed w = false ->
+    run_nodes flits lookup budget inc l c w = Out c' w' e ->
+    w_failed w' = true -> e = Some EWriter.
+Proof. exact fault_nodes. Qed.
+Print Assumptions C17_nodes_fault_is_writer_error.
+
+(* the template level turns the exit signal into success: a writer fault is not affected *)
+Theorem C17_tpl_fault_is_writer_error :
+  forall flits lookup budget inc t c w c' w' e,
+    w_failed w = false ->
+    write_tpl flits lookup budget inc t c w = Out c' w' e ->
+    w_failed w' = true -> e = Some EWriter.
+Proof. exact fault_tpl. Qed.
+Print Assumptions C17_tpl_fault_is_writer_error.
+
+Theorem C17_render_reports :
+  forall flits lookup budget depth t c w c' w' e,
+    w_failed w = false ->
+    render flits lookup budget depth t c w = Out c' w' e ->
+    w_failed w' = true -> e <> None.
+Proof. exact fault_render_reported. Qed.
+Print Assumptions C17_render_reports.
+
+Theorem C17_render_fault_is_writer_error :
+  forall flits lookup budget depth t c w c' w' e,
+    w_failed w = false ->
+    render flits lookup budget depth t c w = Out c' w' e ->
+    w_failed w' = true -> e = Some EWriter.
+Proof. exact fault_render. Qed.
+Print Assumptions C17_render_fault_is_writer_error.
+
+(* what a failing writer accepted is a prefix of what a healthy writer receives: the fault at the
+   k-th Write call (which still takes s bytes) cuts the output, it does not alter it *)
+Theorem C17_prefix :
+  forall flits lookup budget depth t c k s cf wf ef ch wh eh,
+    render flits lookup budget depth t c (wr_new (Some k) s) = Out cf wf ef ->
+    render flits lookup budget depth t c (wr_new None 0) = Out ch wh eh ->
+    exists rest, wr_bytes wh = wr_bytes wf ++ rest.
+Proof. exact prefix_render. Qed.
+Print Assumptions C17_prefix.
+
+(* a run whose writer never reaches its fault is the healthy run: same context, same error, same bytes *)
+Theorem C17_no_fault_same :
+  forall flits lookup budget depth t c wf0 wh0 cf wf ef,
+    sync wf0 wh0 ->
+    render flits lookup budget depth t c wf0 = Out cf wf ef -> w_failed wf = false ->
+    exists wh, render flits lookup budget depth t c wh0 = Out cf wh ef /\ wr_bytes wh = wr_bytes wf.
+Proof. exact no_fault_same. Qed.
+Print Assumptions C17_no_fault_same.
+
+(* a healthy writer is never marked failed and only grows *)
+Theorem C17_healthy_render :
+  forall flits lookup budget depth t c w c' w' e,
+    w_fail w = None -> w_failed w = false ->
+    render flits lookup budget depth t c w = Out c' w' e ->
+    w_failed w' = false /\ exists rest, wr_bytes w' = wr_bytes w ++ rest.
+Proof. exact healthy_render. Qed.
+Print Assumptions C17_healthy_render.
+
+(* non-vacuity: the second Write fails after one byte, inside a for-else branch whose error
+   travels through Ctx.Err; the writer error comes out and "abc" is a prefix of "abcdef" *)
+Example C17_example_fault :
+  let t := [NRaw ["a";"b"]%byte;
+            NLoopRange [] ["v"]%byte ["x"]%byte []
+              [NBlock BTrue no_case [NRaw ["z"]%byte];
+               NBlock BFalse no_case [NRaw ["c";"d"]%byte]];
+            NRaw ["e";"f"]%byte] in
+  (match render [] (fun _ => None) 8 2 t ctx_new (wr_new (Some 2%nat) 1) with
+   | Out _ w e => (wr_bytes w, w_failed w, e)
+   | _ => ([], false, None)
+   end) = (["a";"b";"c"]%byte, true, Some EWriter) /\
+  (match render [] (fun _ => None) 8 2 t ctx_new (wr_new None 0) with
+   | Out _ w e => (wr_bytes w, w_failed w, e)
+   | _ => ([], true, None)
+   end) = (["a";"b";"c";"d";"e";"f"]%byte, false, None).
+Proof. split; reflexivity. Qed.
